@@ -437,8 +437,11 @@ def part_override(ctx, shard):
             world.reset_world()
             S = UnitSystem("ovr", *base)
             R = UnitSystem("ovr_ref", *base)
+            R2 = UnitSystem("ovr_ref2", *base)  # the reference systems are complete before S is used: their own declarations
+            decl2 = {"C": "mC", "T": "uT", "V": "kV", "keV": "erg", "bar": "kPa", "ohm": "mohm"}[decl]  # must not clear anything for S
             try:
                 R[dimname] = decl
+                R2[dimname] = decl2
             except Exception:  # noqa: BLE001
                 continue
             xs = [unyt_array(np.array([1.5, 4.0]), u) for u in probes]
@@ -463,6 +466,25 @@ def part_override(ctx, shard):
                     ctx.outcome(("override", dimname, route, res[0][0], res[1][0]))
                     if res[0] != res[1]:
                         ctx.violation(f"C10|override|dim={dimname}|route={route}|mode=declaration-after-first-use-ignored", {"part": "override", "dim": dimname, "unit": u, "route": route, "base": list(base)}, res[1], res[0])
+            # ... and declared AGAIN with another unit after that use (w10: answers forgotten only for NEW dimensions)
+            try:
+                S[dimname] = decl2
+            except Exception:  # noqa: BLE001
+                continue
+            for x, u in zip(xs, probes):
+                for route, f in (("in_base", lambda n: x.in_base(n)), ("convert_to_base", lambda n: (lambda y: (y.convert_to_base(n), y)[1])(x.copy())), ("get_base_equivalent", lambda n: x.units.get_base_equivalent(n))):
+                    ctx.count("evaluations")
+                    res = []
+                    for sysobj in (S, R2):
+                        try:
+                            got = f(sysobj)
+                            res.append(("ok", str(got if route == "get_base_equivalent" else got.units), None if route == "get_base_equivalent" else np.asarray(got.d, dtype=float).tolist()))
+                        except Exception as e:  # noqa: BLE001
+                            res.append(("raise", type(e).__name__, None))
+                    ctx.decided(("override-again", dimname, base, u, route))
+                    ctx.outcome(("override-again", dimname, route, res[0][0], res[1][0]))
+                    if res[0] != res[1]:
+                        ctx.violation(f"C10|override|dim={dimname}|route={route}|mode=second-declaration-after-use-ignored", {"part": "override", "dim": dimname, "unit": u, "route": route, "base": list(base)}, res[1], res[0])
     world.reset_world()
 
 
